@@ -40,8 +40,17 @@ def run_history(cfg):
             h = LayoutSwapper(comm, cfg['groups'], cfg['group_nprocs'], eta, start)
         g = Grid(eta, [None] * nd, h, start, comm, dtype=np.dtype(dtype).type, allocateSaveMemory=hasSave)
 
-        def put(fid):
-            g.getAllData()[:] = lu.expected_block(field_array(shape, fid, dtype), g.getLayout(g.currentLayout))
+        def put(fid, via='all'):
+            blk = lu.expected_block(field_array(shape, fid, dtype), g.getLayout(g.currentLayout))
+            if via == '2d':
+                # the way the advection operators and the initialisers write: in place through the 2-D slice views
+                for idx in np.ndindex(*blk.shape[:-2]):
+                    g.get2DSlice(*idx)[:] = blk[idx]
+            elif via == '1d':
+                for idx in np.ndindex(*blk.shape[:-1]):
+                    g.get1DSlice(*idx)[:] = blk[idx]
+            else:
+                g.getAllData()[:] = blk
 
         def visible_ok(fid):
             return bool(np.array_equal(g.getAllData(), lu.expected_block(field_array(shape, fid, dtype), g.getLayout(g.currentLayout))))
@@ -68,7 +77,7 @@ def run_history(cfg):
                 if k == 'set':
                     g.setLayout(op['l'])
                 elif k == 'write':
-                    put(op['v'])
+                    put(op['v'], op.get('via', 'all'))
                 elif k == 'save':
                     g.saveGridValues()
                 elif k == 'restore':
@@ -112,7 +121,20 @@ def run_history(cfg):
 
 def gen(rng, it, quick):
     r = rng.random()
-    if r < 0.6:
+    if r < 0.15:
+        # many layouts of a 4-D grid: several pairs are joined by more than one shortest route (ties in the route table)
+        nprocs = rng.choice([[2, 2], [2, 1], [1, 2], [2, 3]])
+        shape = lu.rand_shape(rng, 4, nprocs, hi=5)
+        lays = lu.rand_layout_set(rng, 4, nprocs, k=rng.randint(5, 7))
+        if rng.random() < 0.5:
+            # names in another order than the order of creation
+            keys = list(lays)
+            vals = [lays[k] for k in keys]
+            rng.shuffle(vals)
+            lays = dict(zip(keys, vals))
+        cfg = {'manager': 'handler', 'layouts': lays, 'nprocs': nprocs, 'ext': shape, 'world': nprocs}
+        names = list(lays)
+    elif r < 0.6:
         nprocs = rng.choice([[1, 1], [2, 1], [1, 2], [2, 2], [3, 1], [1, 3], [2, 3]])
         shape = lu.rand_shape(rng, 4, nprocs, hi=5)
         cfg = {'manager': 'handler', 'layouts': LAY4, 'nprocs': nprocs, 'ext': shape, 'world': nprocs}
@@ -135,7 +157,8 @@ def gen(rng, it, quick):
     ops = []
     for _ in range(rng.randint(3, 12 if quick else 20)):
         k = rng.choice(['set', 'set', 'set', 'write', 'save', 'restore', 'free'])
-        ops.append({'k': 'set', 'l': rng.choice(names)} if k == 'set' else {'k': 'write', 'v': rng.randint(1, 9)} if k == 'write' else {'k': k})
+        ops.append({'k': 'set', 'l': rng.choice(names)} if k == 'set' else
+                   {'k': 'write', 'v': rng.randint(1, 9), 'via': rng.choice(['all', '2d', '1d'])} if k == 'write' else {'k': k})
     cfg.update({'ops': ops, 'hasSave': rng.random() < 0.8, 'dtype': rng.choice(['float64', 'complex128']), 'start': rng.choice(names),
                 'field0': rng.randint(1, 9), 'names': names, 'policy': rng.choice(['inorder', 'reverse', 'random']), 'seed': it})
     return cfg
